@@ -36,7 +36,10 @@ CONSTANTS
     PhaseSet,      \* phases at which the first event may fire
     Ev1Set, Ev2Set,\* first / second (racing) event alphabets
     WfcBudget,     \* wait_for_connected() calls the application makes (0..2)
-    Answerer       \* BOOLEAN: the endpoint answers an offer instead of making one
+    Answerer,      \* BOOLEAN: the endpoint answers an offer instead of making one
+    MaxFlaps,      \* recoverable ICE disconnects (shorter than the grace period) that may precede the events
+    IceFailFallback \* BOOLEAN: the slow fallbacks (ICE connection timeout, SCTP heartbeat limit) are close enough to
+                    \* matter; FALSE: they lie far beyond disconnect threshold + grace
 
 DeviationNames == {
     "OverwriteClosed",       \* loops publish peer state without looking at the current value
@@ -46,6 +49,7 @@ DeviationNames == {
     "WaitConnectedBlind",    \* wait_for_connected() only returns on Connected / Failed / Closed
     "SigOverwriteClosed",    \* set_*_description commits its signaling transition after close()
     "SendCheckThenPark",     \* a blocked sender checks the association state and only then creates notified()
+    "GraceNotRearmed",       \* after one recovered ICE disconnect the grace timer is never armed again
     "ExitDoesNotWake"        \* only close()/Drop of the transport wake a blocked sender, not the end of the association
 }
 
@@ -83,11 +87,12 @@ VARIABLES
     calls,                        \* pending API calls
     sendpc,                       \* the blocked send_data() call: none | check | prewait | parked
     peerAlive, alertIn, abortIn, shutdownIn,   \* the peer and what it has sent
-    wfcLeft, fired                \* wait_for_connected() calls the application may still make; events fired
+    wfcLeft, fired,               \* wait_for_connected() calls the application may still make; events fired
+    flapLeft, flapping            \* recoverable disconnects still allowed; one is in progress
 
 vars == <<peer, sig, reason, ap, iceT, sock, seenL, seenC, role, lp, cp, cval, cnext, dtls, dtask, dpermit,
           seenD, sctp, stask, srun, spermit, swhy, loops, chan, opened, closes, grace, cl, handles, dropped,
-          calls, sendpc, peerAlive, alertIn, abortIn, shutdownIn, wfcLeft, fired>>
+          calls, sendpc, peerAlive, alertIn, abortIn, shutdownIn, wfcLeft, fired, flapLeft, flapping>>
 
 -----------------------------------------------------------------------------
 (* helpers *)
@@ -176,6 +181,7 @@ Init ==
     /\ peerAlive = TRUE /\ alertIn = FALSE /\ abortIn = FALSE /\ shutdownIn = FALSE
     /\ wfcLeft = WfcBudget
     /\ fired = <<>>
+    /\ flapLeft = MaxFlaps /\ flapping = FALSE
 
 -----------------------------------------------------------------------------
 (* application script: offerer *)
@@ -189,14 +195,14 @@ A_MakeOffer ==
     /\ chan' = IF Dc THEN "connecting" ELSE chan
     /\ UNCHANGED <<peer, sig, reason, iceT, sock, seenL, seenC, role, lp, cp, cval, cnext, dtls, dtask, dpermit,
                    seenD, sctp, stask, srun, spermit, swhy, loops, opened, closes, grace, cl, handles, dropped,
-                   calls, sendpc, peerAlive, alertIn, abortIn, shutdownIn, wfcLeft, fired>>
+                   calls, sendpc, peerAlive, alertIn, abortIn, shutdownIn, wfcLeft, fired, flapLeft, flapping>>
 
 A_GatherDone ==
     /\ ap = "gathering"
     /\ ap' = "gathered"
     /\ UNCHANGED <<peer, sig, reason, iceT, sock, seenL, seenC, role, lp, cp, cval, cnext, dtls, dtask, dpermit,
                    seenD, sctp, stask, srun, spermit, swhy, loops, chan, opened, closes, grace, cl, handles,
-                   dropped, calls, sendpc, peerAlive, alertIn, abortIn, shutdownIn, wfcLeft, fired>>
+                   dropped, calls, sendpc, peerAlive, alertIn, abortIn, shutdownIn, wfcLeft, fired, flapLeft, flapping>>
 
 \* set_local_description(offer): check then commit
 A_SetLocal ==
@@ -206,7 +212,7 @@ A_SetLocal ==
        ELSE sig' = sig /\ ap' = "sigFailed"
     /\ UNCHANGED <<peer, reason, iceT, sock, seenL, seenC, role, lp, cp, cval, cnext, dtls, dtask, dpermit,
                    seenD, sctp, stask, srun, spermit, swhy, loops, chan, opened, closes, grace, cl, handles,
-                   dropped, calls, sendpc, peerAlive, alertIn, abortIn, shutdownIn, wfcLeft, fired>>
+                   dropped, calls, sendpc, peerAlive, alertIn, abortIn, shutdownIn, wfcLeft, fired, flapLeft, flapping>>
 
 \* set_remote_description(answer): signaling commit, DTLS role, ICE start
 A_SetRemote ==
@@ -219,7 +225,7 @@ A_SetRemote ==
        ELSE sig' = sig /\ ap' = "sigFailed" /\ UNCHANGED <<role, iceT, sock>>
     /\ UNCHANGED <<peer, reason, seenL, seenC, lp, cp, cval, cnext, dtls, dtask, dpermit,
                    seenD, sctp, stask, srun, spermit, swhy, loops, chan, opened, closes, grace, cl, handles,
-                   dropped, calls, sendpc, peerAlive, alertIn, abortIn, shutdownIn, wfcLeft, fired>>
+                   dropped, calls, sendpc, peerAlive, alertIn, abortIn, shutdownIn, wfcLeft, fired, flapLeft, flapping>>
 
 \* answerer: set_remote_description(offer) - signaling commit, DTLS role, ICE start; the channel the offerer
 \* announced will be opened by its DCEP message
@@ -234,7 +240,7 @@ A_SetRemoteOffer ==
        ELSE sig' = sig /\ ap' = "sigFailed" /\ UNCHANGED <<role, iceT, sock, chan>>
     /\ UNCHANGED <<peer, reason, seenL, seenC, lp, cp, cval, cnext, dtls, dtask, dpermit,
                    seenD, sctp, stask, srun, spermit, swhy, loops, opened, closes, grace, cl, handles,
-                   dropped, calls, sendpc, peerAlive, alertIn, abortIn, shutdownIn, wfcLeft, fired>>
+                   dropped, calls, sendpc, peerAlive, alertIn, abortIn, shutdownIn, wfcLeft, fired, flapLeft, flapping>>
 
 \* answerer: set_local_description(answer)
 A_SetLocalAnswer ==
@@ -244,7 +250,7 @@ A_SetLocalAnswer ==
        ELSE sig' = sig /\ ap' = "sigFailed"
     /\ UNCHANGED <<peer, reason, iceT, sock, seenL, seenC, role, lp, cp, cval, cnext, dtls, dtask, dpermit,
                    seenD, sctp, stask, srun, spermit, swhy, loops, chan, opened, closes, grace, cl, handles,
-                   dropped, calls, sendpc, peerAlive, alertIn, abortIn, shutdownIn, wfcLeft, fired>>
+                   dropped, calls, sendpc, peerAlive, alertIn, abortIn, shutdownIn, wfcLeft, fired, flapLeft, flapping>>
 
 \* a new local offer on an established connection
 A_Reneg ==
@@ -254,7 +260,7 @@ A_Reneg ==
     /\ sig' = "HaveLocalOffer" /\ ap' = "reneg"
     /\ UNCHANGED <<peer, reason, iceT, sock, seenL, seenC, role, lp, cp, cval, cnext, dtls, dtask, dpermit,
                    seenD, sctp, stask, srun, spermit, swhy, loops, chan, opened, closes, grace, cl, handles,
-                   dropped, calls, sendpc, peerAlive, alertIn, abortIn, shutdownIn, wfcLeft, fired>>
+                   dropped, calls, sendpc, peerAlive, alertIn, abortIn, shutdownIn, wfcLeft, fired, flapLeft, flapping>>
 
 \* a late signaling commit after close(): the check was made before close() published Closed
 A_SigLate ==
@@ -264,7 +270,7 @@ A_SigLate ==
     /\ ap' = "sigFailed"
     /\ UNCHANGED <<peer, reason, iceT, sock, seenL, seenC, role, lp, cp, cval, cnext, dtls, dtask, dpermit,
                    seenD, sctp, stask, srun, spermit, swhy, loops, chan, opened, closes, grace, cl, handles,
-                   dropped, calls, sendpc, peerAlive, alertIn, abortIn, shutdownIn, wfcLeft, fired>>
+                   dropped, calls, sendpc, peerAlive, alertIn, abortIn, shutdownIn, wfcLeft, fired, flapLeft, flapping>>
 
 -----------------------------------------------------------------------------
 (* close_with_reason in its steps (k = 1, 2: application calls; 3: Drop for PeerConnectionInner) *)
@@ -281,7 +287,7 @@ A_Close1(k) ==
                       ELSE CloseReason(k)
     /\ UNCHANGED <<peer, sig, ap, iceT, sock, seenL, seenC, role, lp, cp, cval, cnext, dtls, dtask, dpermit,
                    seenD, sctp, stask, srun, spermit, swhy, loops, chan, opened, closes, grace, handles,
-                   dropped, calls, sendpc, peerAlive, alertIn, abortIn, shutdownIn, wfcLeft, fired>>
+                   dropped, calls, sendpc, peerAlive, alertIn, abortIn, shutdownIn, wfcLeft, fired, flapLeft, flapping>>
 
 A_Close2(k) ==
     /\ cl[k] = "pub"
@@ -289,7 +295,7 @@ A_Close2(k) ==
     /\ cl' = [cl EXCEPT ![k] = "sctp"]
     /\ UNCHANGED <<reason, ap, iceT, sock, seenL, seenC, role, lp, cp, cval, cnext, dtls, dtask, dpermit,
                    seenD, sctp, stask, srun, spermit, swhy, loops, chan, opened, closes, grace, handles,
-                   dropped, calls, sendpc, peerAlive, alertIn, abortIn, shutdownIn, wfcLeft, fired>>
+                   dropped, calls, sendpc, peerAlive, alertIn, abortIn, shutdownIn, wfcLeft, fired, flapLeft, flapping>>
 
 \* SctpTransport::close(): state Closed, one permit, blocked senders woken
 A_Close3(k) ==
@@ -305,7 +311,7 @@ A_Close3(k) ==
     /\ cl' = [cl EXCEPT ![k] = "dtls"]
     /\ UNCHANGED <<peer, sig, reason, ap, iceT, sock, seenL, seenC, role, lp, cp, cval, cnext, dtls, dtask,
                    dpermit, seenD, stask, srun, swhy, loops, chan, opened, closes, grace, handles,
-                   dropped, peerAlive, alertIn, abortIn, shutdownIn, wfcLeft, fired>>
+                   dropped, peerAlive, alertIn, abortIn, shutdownIn, wfcLeft, fired, flapLeft, flapping>>
 
 A_Close4(k) ==
     /\ cl[k] = "dtls"
@@ -313,7 +319,7 @@ A_Close4(k) ==
     /\ cl' = [cl EXCEPT ![k] = "ice"]
     /\ UNCHANGED <<peer, sig, reason, ap, iceT, sock, seenL, seenC, role, lp, cp, cval, cnext, dtls, dtask,
                    seenD, sctp, stask, srun, spermit, swhy, loops, chan, opened, closes, grace, handles,
-                   dropped, calls, sendpc, peerAlive, alertIn, abortIn, shutdownIn, wfcLeft, fired>>
+                   dropped, calls, sendpc, peerAlive, alertIn, abortIn, shutdownIn, wfcLeft, fired, flapLeft, flapping>>
 
 A_Close5(k) ==
     /\ cl[k] = "ice"
@@ -321,7 +327,7 @@ A_Close5(k) ==
     /\ cl' = [cl EXCEPT ![k] = "done"]
     /\ UNCHANGED <<peer, sig, reason, ap, seenL, seenC, role, lp, cp, cval, cnext, dtls, dtask, dpermit,
                    seenD, sctp, stask, srun, spermit, swhy, loops, chan, opened, closes, grace, handles,
-                   dropped, calls, sendpc, peerAlive, alertIn, abortIn, shutdownIn, wfcLeft, fired>>
+                   dropped, calls, sendpc, peerAlive, alertIn, abortIn, shutdownIn, wfcLeft, fired, flapLeft, flapping>>
 
 \* the last application handle is gone and no task holds the connection: Drop runs close and
 \* aborts the tracked tasks (L with C inside it); the loops guard goes with C
@@ -331,7 +337,7 @@ InnerDropCore ==
     /\ dropped' = TRUE
     /\ UNCHANGED <<peer, sig, reason, ap, iceT, sock, seenL, seenC, role, lp, cp, cval, cnext, dtls, dtask,
                    dpermit, seenD, sctp, stask, srun, spermit, swhy, loops, chan, opened, closes, grace,
-                   handles, calls, sendpc, peerAlive, alertIn, abortIn, shutdownIn, wfcLeft, fired>>
+                   handles, calls, sendpc, peerAlive, alertIn, abortIn, shutdownIn, wfcLeft, fired, flapLeft, flapping>>
 
 InnerDrop == StrongRefs = 0 /\ InnerDropCore
 
@@ -342,14 +348,14 @@ AbortTracked ==
     /\ RunnerDropped
     /\ UNCHANGED <<peer, sig, reason, ap, iceT, sock, seenL, seenC, role, cval, cnext, dtls, dtask, dpermit,
                    seenD, sctp, spermit, swhy, opened, grace, cl, handles, dropped, calls,
-                   peerAlive, alertIn, abortIn, shutdownIn, wfcLeft, fired>>
+                   peerAlive, alertIn, abortIn, shutdownIn, wfcLeft, fired, flapLeft, flapping>>
 
 -----------------------------------------------------------------------------
 (* L: ice -> pc loop *)
 
 LUnch == <<sig, ap, iceT, sock, seenC, role, dtls, dtask, dpermit, seenD, sctp, stask, srun, spermit,
            swhy, loops, chan, opened, closes, grace, cl, handles, dropped, calls, sendpc, peerAlive, alertIn, abortIn,
-           shutdownIn, wfcLeft, fired>>
+           shutdownIn, wfcLeft, fired, flapLeft, flapping>>
 
 L_Top ==
     /\ lp = "top" /\ ~dropped
@@ -381,7 +387,7 @@ L_EnterConn ==
     /\ UNCHANGED <<peer, reason, seenL, cval, cnext>>
     /\ UNCHANGED <<sig, ap, iceT, sock, role, dtls, dtask, dpermit, seenD, sctp, stask, srun, spermit,
                    swhy, loops, chan, opened, closes, grace, cl, handles, dropped, calls, sendpc, peerAlive, alertIn,
-                   abortIn, shutdownIn, wfcLeft, fired>>
+                   abortIn, shutdownIn, wfcLeft, fired, flapLeft, flapping>>
 
 L_PubFailed ==
     /\ lp = "pre:iceloop.ice_failed"
@@ -404,13 +410,13 @@ L_ConnReturn ==
     /\ UNCHANGED <<peer, reason, seenL, cval, cnext>>
     /\ UNCHANGED <<sig, ap, iceT, sock, seenC, role, dtls, dtask, dpermit, seenD, sctp, spermit,
                    swhy, opened, grace, cl, handles, dropped, calls, peerAlive, alertIn, abortIn,
-                   shutdownIn, wfcLeft, fired>>
+                   shutdownIn, wfcLeft, fired, flapLeft, flapping>>
 
 -----------------------------------------------------------------------------
 (* C: connected-state handler with start_dtls *)
 
 CUnch == <<sig, ap, iceT, sock, seenL, role, lp, dtask, dpermit, srun, swhy, chan, opened, closes, cl, handles,
-           dropped, calls, sendpc, peerAlive, alertIn, abortIn, shutdownIn, wfcLeft, fired>>
+           dropped, calls, sendpc, peerAlive, alertIn, abortIn, shutdownIn, wfcLeft, fired, flapLeft, flapping>>
 
 C_Role ==
     /\ cp = "waitRole"
@@ -440,7 +446,7 @@ C_Start ==
                  /\ UNCHANGED <<cval, cnext, reason>>
     /\ UNCHANGED <<peer, seenC, spermit, loops, grace>>
     /\ UNCHANGED <<sig, ap, iceT, sock, seenL, role, lp, dpermit, srun, swhy, chan, opened, closes, cl, handles,
-                   dropped, calls, sendpc, peerAlive, alertIn, abortIn, shutdownIn, wfcLeft, fired>>
+                   dropped, calls, sendpc, peerAlive, alertIn, abortIn, shutdownIn, wfcLeft, fired, flapLeft, flapping>>
     /\ dtask' = IF cp' = "hsStarted" THEN "running" ELSE dtask
 
 \* Srtp: the handler waits for both descriptions before it starts the transport and gives up on a closed connection
@@ -538,7 +544,9 @@ C_RunIce ==
     /\ CASE iceT \in {"Failed", "Closed"} ->
               cp' = "retTrue" /\ UNCHANGED <<cval, cnext, grace>>
          [] iceT = "Disconnected" ->
-              cp' = "pre:conn.ice_disc" /\ cval' = "Disconnected" /\ cnext' = "run" /\ grace' = TRUE
+              cp' = "pre:conn.ice_disc" /\ cval' = "Disconnected" /\ cnext' = "run" /\
+              (\/ grace' = TRUE
+               \/ "GraceNotRearmed" \in Deviations /\ flapLeft < MaxFlaps /\ ~flapping /\ grace' = FALSE)
          [] iceT \in IceUp ->
               cp' = "pre:conn.ice_rec" /\ cval' = "Connected" /\ cnext' = "run" /\ grace' = FALSE
          [] OTHER -> UNCHANGED <<cp, cval, cnext, grace>>
@@ -560,7 +568,7 @@ C_RunDtls ==
 
 \* disconnect grace expired
 C_RunGrace ==
-    /\ cp = "run" /\ grace
+    /\ cp = "run" /\ grace /\ ~flapping          \* (a flap is, by definition, shorter than the grace period)
     /\ grace' = FALSE
     /\ SetReason("IceDisconnected")
     /\ cp' = "pre:conn.grace" /\ cval' = "Disconnected" /\ cnext' = "retTrue"
@@ -575,7 +583,7 @@ C_Run == C_RunLoops \/ C_RunIce \/ C_RunDtls \/ C_RunGrace
 
 DUnch == <<peer, sig, reason, ap, iceT, sock, seenL, seenC, role, lp, cp, cval, cnext, seenD, sctp, stask, srun,
            spermit, swhy, loops, chan, opened, closes, grace, cl, handles, dropped, calls, sendpc, peerAlive,
-           abortIn, shutdownIn, wfcLeft, fired>>
+           abortIn, shutdownIn, wfcLeft, fired, flapLeft, flapping>>
 
 D_Connect ==
     /\ dtask = "running" /\ dtls = "Handshaking" /\ sock /\ peerAlive
@@ -610,7 +618,7 @@ D_Timeout ==
 (* S: SCTP runner (polled inline by start_dtls before DTLS is up, as a transport loop afterwards) *)
 
 SUnch == <<peer, sig, reason, ap, iceT, sock, seenL, seenC, role, lp, cp, cval, cnext, dtls, dtask, dpermit,
-           seenD, grace, cl, handles, dropped, calls, peerAlive, alertIn, wfcLeft, fired>>
+           seenD, grace, cl, handles, dropped, calls, peerAlive, alertIn, wfcLeft, fired, flapLeft, flapping>>
 
 SExit(why) ==
     \* the cleanup guard also wakes senders parked on the buffered-amount limit
@@ -679,6 +687,7 @@ S_ShutdownAck ==
 
 \* the peer shut the association down and stopped answering: heartbeats run out
 S_PeerSilent ==
+    /\ IceFailFallback      \* (heartbeat / retransmission limits are slow fallbacks like ICE's connection timeout)
     /\ SPolled /\ srun = "assoc" /\ ~peerAlive
     /\ srun' = "exited"
     /\ SExit("HEARTBEAT_TIMEOUT")
@@ -696,7 +705,7 @@ T_DirectEnd ==
 
 EUnch == <<peer, sig, reason, ap, seenL, seenC, role, lp, cp, cval, cnext, dtls, dtask, dpermit, seenD, sctp, stask,
            srun, spermit, swhy, loops, chan, opened, closes, grace, cl, handles, dropped, calls, sendpc, alertIn, abortIn,
-           shutdownIn, wfcLeft, fired>>
+           shutdownIn, wfcLeft, fired, flapLeft, flapping>>
 
 I_Connect ==
     /\ iceT = "Checking" /\ peerAlive
@@ -710,6 +719,24 @@ I_Complete ==
     /\ iceT' = IF iceT = "Connected" THEN "Completed" ELSE "Connected"
     /\ UNCHANGED <<sock, peerAlive>> /\ UNCHANGED EUnch
 
+\* a recoverable disturbance: the path is down for less than the grace period, the peer is still there
+I_FlapDown ==
+    /\ flapLeft > 0 /\ ~flapping /\ fired = <<>> /\ iceT \in IceUp /\ peerAlive /\ ~IsDirect
+    /\ cp = "run" /\ peer = "Connected" /\ (Dc => chan = "open")
+    /\ iceT' = "Disconnected" /\ flapLeft' = flapLeft - 1 /\ flapping' = TRUE
+    /\ UNCHANGED <<sock, peerAlive>>
+    /\ UNCHANGED <<peer, sig, reason, ap, seenL, seenC, role, lp, cp, cval, cnext, dtls, dtask, dpermit, seenD, sctp,
+                   stask, srun, spermit, swhy, loops, chan, opened, closes, grace, cl, handles, dropped, calls, sendpc,
+                   alertIn, abortIn, shutdownIn, wfcLeft, fired>>
+
+I_FlapUp ==
+    /\ flapping /\ iceT = "Disconnected" /\ peerAlive
+    /\ iceT' = "Connected" /\ flapping' = FALSE
+    /\ UNCHANGED <<sock, peerAlive, flapLeft>>
+    /\ UNCHANGED <<peer, sig, reason, ap, seenL, seenC, role, lp, cp, cval, cnext, dtls, dtask, dpermit, seenD, sctp,
+                   stask, srun, spermit, swhy, loops, chan, opened, closes, grace, cl, handles, dropped, calls, sendpc,
+                   alertIn, abortIn, shutdownIn, wfcLeft, fired>>
+
 I_Disconnect ==
     /\ iceT \in IceUp /\ ~peerAlive /\ ~IsDirect
     /\ iceT' = "Disconnected"
@@ -717,6 +744,7 @@ I_Disconnect ==
 
 I_Fail ==
     /\ iceT \in {"Checking", "Disconnected"} /\ ~peerAlive
+    /\ (iceT = "Disconnected" => IceFailFallback)
     /\ iceT' = "Failed"
     /\ UNCHANGED <<sock, peerAlive>> /\ UNCHANGED EUnch
 
@@ -731,12 +759,12 @@ R_WaitConnected ==
     /\ calls' = calls \ {"wfc"} /\ UNCHANGED sendpc
     /\ UNCHANGED <<peer, sig, reason, ap, iceT, sock, seenL, seenC, role, lp, cp, cval, cnext, dtls, dtask, dpermit,
                    seenD, sctp, stask, srun, spermit, swhy, loops, chan, opened, closes, grace, cl, handles, dropped,
-                   peerAlive, alertIn, abortIn, shutdownIn, wfcLeft, fired>>
+                   peerAlive, alertIn, abortIn, shutdownIn, wfcLeft, fired, flapLeft, flapping>>
 
 \* the send_data() call blocked on the buffered-amount limit (flow-control loop of send_data_raw)
 SendUnch == <<peer, sig, reason, ap, iceT, sock, seenL, seenC, role, lp, cp, cval, cnext, dtls, dtask, dpermit,
               seenD, sctp, stask, srun, spermit, swhy, loops, chan, opened, closes, grace, cl, handles, dropped,
-              peerAlive, alertIn, abortIn, shutdownIn, wfcLeft, fired>>
+              peerAlive, alertIn, abortIn, shutdownIn, wfcLeft, fired, flapLeft, flapping>>
 
 R_SendCheck ==
     /\ sendpc = "check"
@@ -814,13 +842,13 @@ Fire(e) ==
     /\ IF fired = <<>> THEN e \in Ev1Set /\ PhaseNow \in PhaseSet ELSE e \in Ev2Set
     /\ Applicable(e)
     /\ Effect(e)
-    /\ fired' = Append(fired, [ev |-> e, phase |-> PhaseNow,
+    /\ fired' = Append(fired, [ev |-> e, phase |-> PhaseNow, flaps |-> MaxFlaps - flapLeft,
                                at |-> IF sendpc = "prewait" THEN "sctp:send.before_wait" ELSE
                                       IF IsPre(cp) THEN cp ELSE
                                       IF lp \in {"pre:iceloop.ice_failed", "pre:iceloop.ice_closed"}
                                       THEN lp ELSE "any"])
     /\ UNCHANGED <<peer, sig, reason, ap, seenL, seenC, role, lp, cp, cval, cnext, dtls, dtask, dpermit, seenD, sctp,
-                   stask, srun, spermit, swhy, loops, chan, opened, closes, grace, dropped, wfcLeft>>
+                   stask, srun, spermit, swhy, loops, chan, opened, closes, grace, dropped, wfcLeft, flapLeft, flapping>>
 
 \* the application may be waiting in wait_for_connected() before the event, and ask again afterwards
 A_CallWfc ==
@@ -831,7 +859,7 @@ A_CallWfc ==
     /\ wfcLeft' = wfcLeft - 1
     /\ UNCHANGED <<peer, sig, reason, ap, iceT, sock, seenL, seenC, role, lp, cp, cval, cnext, dtls, dtask, dpermit,
                    seenD, sctp, stask, srun, spermit, swhy, loops, chan, opened, closes, grace, cl, handles, dropped,
-                   peerAlive, alertIn, abortIn, shutdownIn, fired>>
+                   peerAlive, alertIn, abortIn, shutdownIn, fired, flapLeft, flapping>>
 
 -----------------------------------------------------------------------------
 Next ==
@@ -845,7 +873,7 @@ Next ==
     \/ S_Start \/ S_DtlsUp \/ S_Established \/ S_ChanOpen \/ S_Closed \/ S_DtlsGone \/ S_Abort \/ S_PeerSilent
     \/ S_InputClosed
     \/ T_DirectEnd
-    \/ I_Connect \/ I_Complete \/ I_Disconnect \/ I_Fail
+    \/ I_Connect \/ I_Complete \/ I_Disconnect \/ I_Fail \/ I_FlapDown \/ I_FlapUp
     \/ R_WaitConnected \/ R_SendCheck \/ R_SendPark \/ R_SendCredit \/ A_Stream
     \/ (\E e \in Events : Fire(e)) \/ A_CallWfc
 
@@ -857,7 +885,7 @@ Fairness ==
     /\ WF_vars(S_Start \/ S_DtlsUp \/ S_Established \/ S_ChanOpen \/ S_Closed \/ S_DtlsGone \/ S_Abort \/ S_PeerSilent
                \/ S_InputClosed)
     /\ WF_vars(T_DirectEnd)
-    /\ WF_vars(I_Connect \/ I_Disconnect \/ I_Fail)
+    /\ WF_vars(I_Connect \/ I_Disconnect \/ I_Fail \/ I_FlapUp)
     /\ WF_vars(\E k \in 1..3 : A_Close1(k) \/ A_Close2(k) \/ A_Close3(k) \/ A_Close4(k) \/ A_Close5(k))
     /\ WF_vars(InnerDrop \/ AbortTracked)
     /\ WF_vars(R_WaitConnected)
